@@ -233,6 +233,38 @@ def faults_case(case, counters, viol, nontrivial):
                 viol.append({"mech": "C12/checkpoint-iterations-differ-from-cadence/continued-run", "detail": f"{where}: continued from iteration {start[1]} with cadence {e2} over {T2} iterations: payload iterations {its2}, required {want2}"})
         finally:
             rm_tmp(path)
+    # ---- second use after a caught failure: inside one auto_checkpoint context a bigger run is interrupted (the caller
+    #      catches the exception), then this run is made; its checkpoints must be written as if nothing had happened before
+    if mode == "auto" and cfg["sampler"] != "emcee_smc":
+        from .. import smcrun
+
+        path = tmpfile("after.h5")
+        try:
+            del DUMPS[:]
+            tt = Target.from_desc(cfg["target"])
+            pr = Probe(tt)
+            _, a3, pr = recorded.build(cfg, probe=pr)
+            with a3.auto_checkpoint(path, every=cfg["ckpt_every"]):
+                pr.fault_like_at = pr.n_like_calls + int(g.integers(1, max(2, n_like // 2)))
+                bigc = dict(cfg, n=3 * n + 7)
+                r1 = smcrun.run(a3, bigc["n"], bigc["sampler"], recorded.sample_kwargs(bigc), max_calls=5000)
+                pr.fault_like_at = None
+                nb = len(DUMPS)
+                r2 = smcrun.run(a3, cfg["n"], cfg["sampler"], recorded.sample_kwargs(cfg), max_calls=5000)
+            if r2.exc is not None:
+                raise r2.exc
+            counters["runs_after_a_caught_failure"] += int(r1.exc is not None)
+            T3 = len(r2.history.beta)
+            its3 = [it for (fn, it, b) in DUMPS[nb:] if fn == os.path.realpath(path)]
+            want3 = [i for i in range(1, T3 + 1) if i % every == 0] + [T3]
+            if its3 != want3:
+                viol.append({"mech": "C12/checkpoint-iterations-differ-from-cadence/after-a-caught-failure", "detail": f"{where}: payload iterations {its3}, required {want3}"})
+            st3 = read_file(path)
+            last3 = DUMPS[-1][2] if len(DUMPS) > nb else None
+            if not (st3["config"] and st3["flow"]) or (last3 is not None and st3["state"] != last3):
+                viol.append({"mech": "C12/file-after-normal-end-differs-from-last-payload/after-a-caught-failure", "detail": f"{where}: config={st3['config']} flow={st3['flow']} state bytes {None if st3['state'] is None else len(st3['state'])} vs last payload {None if last3 is None else len(last3)}"})
+        finally:
+            rm_tmp(path)
     # ---- a fault at every likelihood and prior call index
     big_cfg = dict(cfg, n=3 * n + 7)
     first_ckpt_call = None
